@@ -977,13 +977,9 @@ caption_command(vbi_decoder *vbi, struct caption *cc,
 			set_cursor(ch, 1, row);
 
 		if (c2 & 0x10) {
-			col = ch->col;
-
-			for (i = (c2 & 14) * 2; i > 0 && col < COLUMNS - 1; i--)
-				ch->line[col++] = cc->transp_space[chan >> 2];
-
-			if (col > ch->col)
-				ch->col = ch->col1 = col;
+			/* 47 CFR 15.119 (e)(1)(i): The PAC indent is
+			   non-destructive to displayable characters. */
+			ch->col = ch->col1 = 1 + (c2 & 14) * 2;
 
 			ch->attr.italic = FALSE;
 			ch->attr.foreground = VBI_WHITE;
